@@ -44,7 +44,9 @@ ASSUMPTIONS = [
 URN_NS = "urn:ex:vocab:"
 HASH_NS = "http://ex.org/onto#"           # predicates onto#p<i> ...
 HASH_DEEP_NS = "http://ex.org/onto#addr/"  # ... and onto#addr/p<i>: a '/' after the '#'
-NS_POOL = [gen.EX, gen.EX_DEEP, gen.EX_DEEPER, gen.OTHER, URN_NS, HASH_NS, HASH_DEEP_NS]
+PLUS_NS = "http://ex.org/voc+ext/"          # characters that mean something in a pattern language ...
+PLUS_TWIN_NS = "http://ex.org/vocext/"      # ... and the namespace such a pattern would also match
+NS_POOL = [gen.EX, gen.EX_DEEP, gen.EX_DEEPER, gen.OTHER, URN_NS, HASH_NS, HASH_DEEP_NS, PLUS_NS, PLUS_TWIN_NS]
 
 
 def generate(rng, tier, index):
